@@ -139,12 +139,15 @@ def GridSpec.tileGeobox (fl : Rnd) (g : GridSpec) (k : Int × Int) : GeoBox :=
 def applyF (fl : Rnd) (A : Aff) (p : Rat × Rat) : Rat × Rat :=
   (fl (fl (fl (p.1 * A.a) + fl (p.2 * A.b)) + A.c), fl (fl (fl (p.1 * A.d) + fl (p.2 * A.e)) + A.f))
 
-/-- `GeoBox.boundingbox` = `BoundingBox.from_transform(shape, affine)`:
-    `p1 = A*(0,0)`, `p2 = A*(nx,ny)`, each coordinate pair sorted. -/
+/-- `GeoBox.boundingbox` = `BoundingBox.from_transform(shape, affine)` as on /repo HEAD (geom.py:276-292):
+    images of all four pixel corners `(0,0),(0,ny),(nx,ny),(nx,0)`, `min`/`max` of their coordinates. -/
 def GeoBox.bbox (fl : Rnd) (gb : GeoBox) : BBox :=
-  let p1 := applyF fl gb.aff (0, 0)
+  let p0 := applyF fl gb.aff (0, 0)
+  let p1 := applyF fl gb.aff (0, (gb.ny : Rat))
   let p2 := applyF fl gb.aff ((gb.nx : Rat), (gb.ny : Rat))
-  ⟨min p1.1 p2.1, min p1.2 p2.2, max p1.1 p2.1, max p1.2 p2.2⟩
+  let p3 := applyF fl gb.aff ((gb.nx : Rat), 0)
+  ⟨min (min (min p0.1 p1.1) p2.1) p3.1, min (min (min p0.2 p1.2) p2.2) p3.2,
+   max (max (max p0.1 p1.1) p2.1) p3.1, max (max (max p0.2 p1.2) p2.2) p3.2⟩
 
 /-- `GeoBox.extent` for an affine geobox = `polygon_from_transform`: exterior ring
     `(0,0),(0,ny),(nx,ny),(nx,0)` mapped through the affine. -/
@@ -248,6 +251,56 @@ def GridSpec.tilesFromPolygonC (fl : Rnd) (tol : Rat) (g : GridSpec) (q : BBox) 
 /-- every cached geobox is the geobox of its key (what a cache filled only by this grid satisfies) -/
 def GridSpec.Coherent (fl : Rnd) (g : GridSpec) (c : Cache) : Prop :=
   ∀ k gb, c.lookup k = some gb → gb = g.tileGeobox fl k
+
+/-! ### `__eq__`, `alignment`, `geojson` index walk, multi-part query geometries -/
+
+/-- `GridSpec.__eq__` (gridspec.py:79-88): `_shape`, `_ybin`, `_xbin` and `crs` are compared
+    (`Bin1D.__eq__`: `sz`, `origin`, `direction`); `crsEq` is the outcome of the CRS comparison.
+    The resolution (its sign) is NOT compared.  There is no `__hash__`: instances are unhashable. -/
+def GridSpec.beq (g h : GridSpec) (crsEq : Bool) : Bool :=
+  decide (g.ny = h.ny ∧ g.nx = h.nx) && decide (g.ybin = h.ybin) && decide (g.xbin = h.xbin) && crsEq
+
+/-- CPython `float.__mod__` `a % b` (floatobject.c `float_rem`): `ZeroDivisionError` for `b = 0`; `mod = fmod(a, b)`
+    — the truncated remainder, exact in IEEE — and, when `mod` is non-zero and its sign differs from `b`'s,
+    `mod += b` (one rounded addition). -/
+def pyFloatMod (fl : Rnd) (a b : Rat) : Res Rat :=
+  if b = 0 then .error .zeroDiv
+  else
+    let q := a / b
+    let t : Int := if 0 ≤ q then q.floor else q.ceil
+    let m := a - (t : Rat) * b
+    if m ≠ 0 ∧ (decide (b < 0) != decide (m < 0)) then .ok (fl (m + b)) else .ok m
+
+/-- `GridSpec.alignment` (gridspec.py:95-101): `(origin.x % |res.x|, origin.y % |res.y|)` as `(x, y)` -/
+def GridSpec.alignment (fl : Rnd) (g : GridSpec) : Res (Rat × Rat) := do
+  let y ← pyFloatMod fl g.oy (rabs g.ry)
+  let x ← pyFloatMod fl g.ox (rabs g.rx)
+  pure (x, y)
+
+/-- which query `GridSpec.geojson(bbox=…, geopolygon=…)` walks (gridspec.py:250-261): the polygon query if a
+    geopolygon is given, else the bbox query, else the CRS' valid region (`none`: not modelled); the emitted
+    features carry `idx = "ix,iy"` in that order. -/
+def GridSpec.geojsonIdx (fl : Rnd) (tol : Rat) (g : GridSpec) (bbox : Option BBox)
+    (poly : Option (BBox × (GeoBox → Bool))) : Option (List (Int × Int)) :=
+  match poly, bbox with
+  | some (q, dj), _ => some (g.tilesFromPolygon fl tol q dj)
+  | none, some q => some (g.tiles fl tol q)
+  | none, none => none
+
+/-- shapely bounds of a multi-part geometry: hull of the parts' bounds (empty geometry: NaNs, `none`) -/
+def hullBBox : List BBox → Option BBox
+  | [] => none
+  | q :: qs => some (qs.foldl (fun h p => ⟨min h.left p.left, min h.bottom p.bottom, max h.right p.right, max h.top p.top⟩) q)
+
+/-- `tiles_from_geopolygon` for a multi-part geometry (MultiPolygon, GeometryCollection, …) given as its parts
+    (bounds, `disjoint` test of that part): ONE scan of the bounding box of the whole geometry, a tile is kept
+    unless it is disjoint from the whole geometry = from every part.  An empty geometry has NaN bounds and
+    `floor(nan)` raises `ValueError`. -/
+def GridSpec.tilesFromMulti (fl : Rnd) (tol : Rat) (g : GridSpec) (parts : List (BBox × (GeoBox → Bool))) :
+    Res (List (Int × Int)) :=
+  match hullBBox (parts.map (·.1)) with
+  | none => .error .valueError
+  | some q => .ok (g.tilesFromPolygon fl tol q (fun gb => parts.all (fun p => p.2 gb)))
 
 /-! ### Vocabulary of the theorems (propositions, not code) -/
 
